@@ -22,7 +22,7 @@ PROPS = {
         not_decided=["the string matching that recognises the directive text inside a comment (comment.lines().map(trim) — str iterators): assumed as has_ignore()/toggled()",
                      "table fields (format_field / format_multiline_table) and require-sorting inside ignore regions: see units table / sort when present"],
         assumptions=["Block::stmts_with_semicolon / with_stmts / Peekable::next/peek behave as sequences (class A/B)"]),
-    "C09": dict(units=["ctx", "block", "lib"],
+    "C09": dict(units=["ctx", "block", "lib"], bounded=[dict(kind="lib", witnesses="RANGE_SORT_WITNESSES")],
         explanation="should_format_node (real text) returns NotInRange iff start < range.start or end > range.end for all positions and bounds. "
                     "format_stmt / format_last_stmt: NotInRange => only nested blocks may change (stmt_block::*, assumed). format_block: an out-of-range "
                     "statement keeps its semicolon token and trailing trivia (pair pushed as returned), in the same position.",
@@ -106,6 +106,14 @@ PROPS = {
                      "panics inside full_moon (e.g. BinOp::precedence `expect(\"invalid token\")`) and other dependencies"],
         assumptions=["machine integers: indent arithmetic (nesting depth x indent_width) and Display widths are treated as non-overflowing (stated preconditions / holes); Kani bounds: indent width < 2^16, nesting < 2^24, widths < 2^32"],
         technique="Verus: panic/arithmetic/termination obligations of every function under contract; Kani complete loop-free harness for Shape arithmetic within stated bounds"),
+    "C12": dict(units=["sort", "lib", "block"], bounded=[dict(kind="lib", witnesses="SORT_WITNESSES")],
+        explanation="partition_nodes_into_groups (real loop, inductive invariant, last_mut pushes): the parts concatenated in order are exactly the block's statements and no part is empty, so sorting "
+                    "can only permute inside a part; format_ast: the codemod runs iff sort_requires.enabled (otherwise the AST reaches the formatter untouched); format_block keeps the number and order of statements.",
+        not_decided=["sort_requires' own loop (per-group ignore test with the folded ignore-region context, trivia swap on the first member, sort_by_key, extend/append): closures and `continue` in a for-loop over an "
+                     "owned Vec are outside what the installed Verus accepts; decided only by the bounded witness programs (labelled bounded): groups with an ignored / out-of-range member, ignore start/end regions, "
+                     "groups separated by blank lines (incl. whitespace-only lines), comments, different kinds",
+                     "group boundaries by line adjacency: the line arithmetic (current_line - previous_line) is behind a wrapper; its usize subtraction is not checked"],
+        assumptions=["parsed ASTs carry positions; local names are identifier tokens (parser)"]),
     "C02": dict(units=["expr", "block", "lib", "tok"],
         explanation="expression spine: same obligations as C05 (operator tree, leaves, operators)",
         not_decided=["statement/block/args/token layers are decided in their own units (see runs)"],
@@ -157,8 +165,19 @@ LIB_WITNESSES = [
     w("-- stylua: ignore\nlocal t = {\n   1,\n      2 }\nlocal   x = 1\n", oracle="contains", contains="local t = {\n   1,\n      2 }\n", line_endings="Windows"),
     w("local s = [[a\nb]]\nlocal   x = 1 -- c\n", oracle="selfverify"),
 ]
+SR = dict(sort_requires="true")
+SORT_WITNESSES = [
+    w('local z = require("z")\n-- stylua: ignore start\nlocal c = require("c")\nlocal b   =  require("b")\n-- stylua: ignore end\nlocal a = require("a")\nlocal y = require("y")\n', oracle="contains", contains='local c = require("c")\nlocal b   =  require("b")\n', **SR),
+    w('local zebra = require("zebra")\n--[[ stylua: ignore ]] local mango   =   require("mango")\nlocal apple = require("apple")\n', oracle="contains", contains='local zebra = require("zebra")\n--[[ stylua: ignore ]] local mango   =   require("mango")\nlocal apple = require("apple")\n', **SR),
+    w('local zebra = require("zebra")\nlocal   mango = require("mango")\nlocal apple = require("apple")\n', oracle="contains", contains='local zebra = require("zebra")\nlocal mango = require("mango")\nlocal apple = require("apple")\n', range=(31, 63), **SR),
+    w('local Rodux = require("Rodux")\nlocal Binder = require("Binder")\n  \t\nlocal Roact = require("Roact")\nlocal Atlas = require("Atlas")\n', oracle="contains", contains='local Binder = require("Binder")\nlocal Rodux = require("Rodux")\n\nlocal Atlas = require("Atlas")\nlocal Roact = require("Roact")\n', **SR),
+    w('local b = require("b") -- cb\nlocal a = require("a") -- ca\n-- above c\nlocal d = require("d")\nlocal c = require("c")\nprint(a)\nlocal f = require("f")\nlocal e = game:GetService("E")\nlocal d2 = game:GetService("D")\nlocal x = 1\nreturn x\n', oracle="permutation", **SR),
+    w('local b = require("b")\nlocal a = require("a")\nlocal x = b.c\nlocal y = require(x)\n', oracle="permutation"),
+]
+RANGE_SORT_WITNESSES = [SORT_WITNESSES[2]]
 def cli(s): return dict(kind="cli", scenario=s)
 WITNESSES = {
+    "C12.": SORT_WITNESSES,
     "C15.": [cli("config_search")], "C20.": [cli("option_carriers")],
     "C14.": [cli("write_only_formatted_text"), cli("check_never_writes")], "C13.": [cli("check_never_writes")], "C17.": [cli("stdin_stdout_only")],
     "C18.": [cli("json_diff_reconstructs"), cli("unified_diff_reconstructs"), cli("check_never_writes")],
@@ -172,7 +191,6 @@ NOT_APPLICABLE = {
     "C06": "two-run relational property over the whole layout engine with a re-lex in between; no per-function contract expresses it (DESIGN.md §9)",
     "C16": "file selection is done by the ignore/globset crates and inline code of the 300-line format(); no function boundary carries the property (DESIGN.md §9)",
     "C19": "a schedule property of std atomics and a thread pool; Kani has no threads and Verus needs its own permission-carrying atomics which the real code does not use (DESIGN.md §9)",
-    "C12": "not claimed yet: unit sort under construction",
 }
 
 # witnesses for unlabelled failures inside a function (failed proof step / precondition): by function name
